@@ -4,6 +4,7 @@ package main
 
 import (
 	"bufio"
+	"encoding/json"
 	"flag"
 	"fmt"
 	"os"
@@ -24,7 +25,10 @@ var profiles = map[string]Profile{
 }
 
 func runOne(s int64, p Profile, out string) {
+	actionLog, _ = os.Create(filepath.Join(out, fmt.Sprintf("%s-%d.actions.jsonl", p.Name, s)))
 	run, stall := Explore(s, p)
+	actionLog.Close()
+	os.Remove(actionLog.Name())
 	f, _ := os.Create(filepath.Join(out, fmt.Sprintf("%s-%d.trace", p.Name, s)))
 	w := bufio.NewWriter(f)
 	w.WriteString(strings.Join(run.Lines, "\n"))
@@ -94,7 +98,18 @@ func main() {
 						txt = txt[:6000]
 					}
 					os.WriteFile(filepath.Join(*out, fmt.Sprintf("%s-%d.trace", p.Name, s)), []byte("CRASH\t"+fmt.Sprintf("%x", txt)+"\n"), 0o644)
-					os.WriteFile(filepath.Join(*out, fmt.Sprintf("%s-%d.history.json", p.Name, s)), []byte(fmt.Sprintf(`{"seed":%d,"profile":{"Name":%q},"crashed":true}`, s, p.Name)), 0o644)
+					// rebuild the history from the action log the child left behind
+					var acts []string
+					if lb, err := os.ReadFile(filepath.Join(*out, fmt.Sprintf("%s-%d.actions.jsonl", p.Name, s))); err == nil {
+						for _, l := range strings.Split(strings.TrimSpace(string(lb)), "\n") {
+							if l != "" {
+								acts = append(acts, l)
+							}
+						}
+					}
+					pj, _ := json.Marshal(p)
+					os.WriteFile(filepath.Join(*out, fmt.Sprintf("%s-%d.history.json", p.Name, s)),
+						[]byte(fmt.Sprintf(`{"seed":%d,"profile":%s,"crashed":true,"actions":[%s]}`, s, pj, strings.Join(acts, ",\n"))), 0o644)
 				} else {
 					for _, l := range strings.Split(string(outb), "\n") {
 						if strings.HasPrefix(l, "STEPS\t") {
